@@ -36,6 +36,7 @@ class Receive:
         self.spos = 0
         self.ended = False
         self.target = None
+        self.calls = 0  # ghost: how often the stream asked the server for an event
 
     def next_event(self):
         v = self.v
@@ -58,6 +59,7 @@ class Receive:
         return ev
 
     def __call__(self):
+        self.calls += 1
         self.v.check('no-receive-after-end-of-body', Not(self.ended))
         return Ready(self.next_event())
 
@@ -99,6 +101,11 @@ def inv_obj(v, s, rc, L, opos):
                v.get(s, '_receive') is rc, Not(v.get(s, '_closed')))
 
 
+def flag_kept(v, s, rc):
+    """Frame: only iteration marks the stream as "being iterated over"."""
+    return Iff(v.get(s, '_iteration_started'), rc.started0)
+
+
 def mk(v, closed=False):
     """A stream in an arbitrary state satisfying the class invariant."""
     src = v.bytes('src')
@@ -113,7 +120,9 @@ def mk(v, closed=False):
     opos = v.int('opos0', 0)
     buf = v.bytes('buf0')
     rem = v.int('rem0')
-    s = v.obj(BS, _buffer=buf, _bytes_remaining=rem, _pos=opos, _closed=closed, _iteration_started=False, _receive=rc)
+    # whether an iteration (async for) was started earlier is part of the arbitrary history: only _iter_content may look at it
+    rc.started0 = v.bool('iteration_started0')
+    s = v.obj(BS, _buffer=buf, _bytes_remaining=rem, _pos=opos, _closed=closed, _iteration_started=rc.started0, _receive=rc)
     if not closed:
         v.assume(inv_obj(v, s, rc, L, opos))
     return s, rc, L, src, opos
@@ -210,9 +219,13 @@ def asgi_read(v):
         v.check('sized-read-bounded', n <= size)
     if kind == 2:
         v.check('nonpositive-size', Or(n == 0, size == -1))
+        # "If the size is -1 or not specified, all remaining data is read and returned"
+        v.check('minus-one-reads-everything', Implies(size == -1, And(Len(v.get(s, '_buffer')) == 0, v.get(s, '_bytes_remaining') == 0,
+                                                                      opos + n == cap(rc.spos, L))))
     v.check('invariant-position-and-budget', inv_obj(v, s, rc, L, opos + n))
     if kind == 0:
         v.check('unsized-read-leaves-eof', And(Len(v.get(s, '_buffer')) == 0, v.get(s, '_bytes_remaining') == 0))
+    v.check('iteration-flag-untouched', flag_kept(v, s, rc))
     v.cover('returns')
 
 
@@ -239,6 +252,7 @@ def asgi_readall(v):
     v.check('invariant-position-and-budget', inv_obj(v, s, rc, L, opos + n))
     v.check('readall-leaves-eof', And(Len(v.get(s, '_buffer')) == 0, v.get(s, '_bytes_remaining') == 0))
     v.check('readall-returns-everything-received', opos + n == cap(rc.spos, L))
+    v.check('iteration-flag-untouched', flag_kept(v, s, rc))
     v.cover('returns')
 
 
@@ -262,6 +276,7 @@ def asgi_exhaust(v):
     v.check('exhaust-leaves-eof', And(Len(v.get(s, '_buffer')) == 0, v.get(s, '_bytes_remaining') == 0))
     v.check('position-counts-everything-consumed', v.get(s, '_pos') == cap(rc.spos, L))
     v.check('invariant-position-and-budget', inv_obj(v, s, rc, L, v.get(s, '_pos')))
+    v.check('iteration-flag-untouched', flag_kept(v, s, rc))
     v.cover('returns')
 
 
@@ -286,8 +301,7 @@ def asgi_iter(v):
     s, rc, L, src, opos = mk(v)
     rc.L = L
     rc.opos0 = opos
-    started = v.bool('iteration_started')
-    v.set(s, '_iteration_started', started)
+    started = rc.started0
     was_eof = And(Len(v.get(s, '_buffer')) == 0, v.get(s, '_bytes_remaining') == 0)
     out = v.call(s)
     OperationNotAllowed = v.real('falcon.errors:OperationNotAllowed')
